@@ -657,6 +657,46 @@ def check_gp_tree(h: Harness):
                 f"individuals per generation {counts}", replay)
 
 
+def check_adaptive_steps(h: Harness):
+    """the adaptive variants of the built-in steps (geneticengine/algorithms/gp/adaptive.py: a parallel step whose weights are fed back
+    from the slices' successes, mutation / crossover steps that re-draw their probability) are steps like any other: asked for n they
+    yield n, generation after generation, while the weights drift.  (The size adjustment of AdaptiveGeneticProgramming re-draws the
+    population size on purpose and is left out.)"""
+    from geneticengine.algorithms.gp.adaptive import FeedbackParallelStep, GenericAdaptiveCrossoverStep, GenericAdaptiveMutationStep
+    from geneticengine.algorithms.gp.operators.combinators import SequenceStep
+    from geneticengine.algorithms.gp.operators.elitism import ElitismStep
+    from geneticengine.algorithms.gp.operators.novelty import NoveltyStep
+    from geneticengine.algorithms.gp.operators.selection import TournamentSelection
+    rng = h.rng
+    sizes = [10, 13, 14, 30, 7, 11, 18, 22] if not h.thorough else [2, 3, 5, 6, 7, 9, 10, 11, 13, 14, 15, 21, 30, 102]
+    for n in sizes:
+        for trial in range(h.n(4, 8)):
+            g, r, rep = sc.tree_setup(rng.randrange(1000))
+            gens = h.n(10, 14) if n < 100 else 4
+            minimize = rng.random() < 0.5
+            problem = SingleObjectiveProblem(lambda p: float(sc.count_nodes(p)), minimize=minimize)
+            rec = sc.GenRecorder(limit=6 * (gens + 1) * n + 100)
+            tracker = SingleObjectiveProgressTracker(problem, SequentialEvaluator(), recorders=[rec])
+            t = rng.randint(2, max(2, min(n, 5)))
+            step = FeedbackParallelStep(tracker, [ElitismStep(), NoveltyStep(),
+                                                  SequenceStep(TournamentSelection(t), GenericAdaptiveMutationStep(r.random_float(0.0, 1.0))),
+                                                  SequenceStep(TournamentSelection(t), GenericAdaptiveCrossoverStep(r.random_float(0.0, 1.0)))],
+                                        weights=4 * [n * 1.0])
+            desc = f"feedback-par[elitism,novelty,seq[tournament({t}),adaptive-mutation],seq[tournament({t}),adaptive-crossover]] weights 4x{n}.0"
+            replay = {"step": desc, "population_size": n, "generations": gens, "minimize": minimize}
+            gp = GeneticProgramming(problem=problem, budget=sc.Generations(gens), representation=rep, random=r, tracker=tracker,
+                                    population_size=n, population_initializer=StandardInitializer(), step=step)
+            try:
+                gp.search()
+                counts = [len(x) for x in rec.generations()]
+            except Exception as e:  # noqa: BLE001
+                h.fail("FeedbackParallelStep.apply", "raises", f"search() with step {desc}, population_size={n}: {type(e).__name__}: {e}"[:300], replay)
+                continue
+            h.count("adaptive-steps:runs")
+            h.holds("FeedbackParallelStep.apply", "generation-size", ["prop_gen_counts", n, counts],
+                    f"search() with step {desc}, population_size={n}: individuals per generation {counts}; weights at the end {step.weights}", replay)
+
+
 def run(h: Harness):
     check_ranges(h)
     check_compositions(h)
@@ -670,3 +710,4 @@ def run(h: Harness):
     check_time_budgets(h)
     check_gp_stub(h)
     check_gp_tree(h)
+    check_adaptive_steps(h)
